@@ -76,6 +76,12 @@ theorem release_registered_before_dial :
     Skel.precedes (.call "net.Dial") (.call "backendConn.Close") skel_connection_Handler = true ∧
     Skel.precedes (.call "conn.Close") (.call "connection.DialWebsocket") skel_frontend_main = true := by decide
 
+/-- regenerated fact: the frontend's websocket dial gives up a handshake that the peer never answers (gorilla's
+    DefaultDialer, 45 s, or an explicit HandshakeTimeout / context deadline).  Without a bound, a client whose
+    bridge peer accepts the TCP connection and then stalls never observes end-of-stream, and the frontend keeps
+    the client's socket after the client has gone (thorough tier: `bridgelife` runs the stalled handshake). -/
+theorem handshake_is_bounded : connection_dialBoundsHandshake = true := by decide
+
 -- non-vacuity: a half-close run delivers the data, then the end-of-stream
 example : (run .halfClose init [.aSend, .aClose, .f1Copy, .f1End, .h1Copy, .h1End, .bRecv, .bSeeEOF]).map goalB = some true := by decide
 
